@@ -874,6 +874,18 @@ fn fixed_scenarios(vs: u64, quick: bool) -> Vec<(String, Scenario)> {
             },
         ),
         (
+            // combos that share a card with the flop (every deal of theirs is rejected by
+            // Showdown::new, not by the evaluator's own used-card test)
+            "flop-collision".to_string(),
+            Scenario {
+                flop: [0, 6, 27],
+                players: vec![
+                    RangeRecipe::simple(vec![(0, 4, one), (1, 5, one), (6, 10, half), (2, 3, one)]),
+                    RangeRecipe::simple(vec![(8, 12, one), (27, 31, one), (13, 17, half)]),
+                ],
+            },
+        ),
+        (
             "1-player".to_string(),
             Scenario { flop: [0, 5, 51], players: vec![RangeRecipe::simple(vec![(1, 2, one), (49, 50, half)])] },
         ),
@@ -936,7 +948,7 @@ fn sweep_names(tier: &str) -> Vec<String> {
     fixed_scenarios(verif_seed(), plan.quick || plan.dev)
         .into_iter()
         .map(|(n, _)| n)
-        .filter(|n| !(plan.dev && n == "2-player"))
+        .filter(|n| !(plan.dev && (n == "2-player" || n == "flop-collision")))
         .collect()
 }
 
